@@ -146,6 +146,23 @@ func Load(repoDir, goos, goarch string) (*World, error) {
 				}
 				funcNameAlias[displayName(nk, keys[nk])] = displayName(ok, RefList[ok])
 			}
+			// packages that lost a reference function for which no renamed successor was found: a large
+			// new function there is more likely the successor in another form (method turned function,
+			// signature changed) than an extracted helper, and is left standing for the by-role finders
+			for k := range RefList {
+				if strings.Contains(k, "/var:") || strings.Contains(k, ":type:") {
+					continue
+				}
+				if _, still := keys[k]; still {
+					continue
+				}
+				if _, renamed := w.RenamedTo[k]; renamed {
+					continue
+				}
+				if pkg, _, ok := strings.Cut(k, ":"); ok {
+					VanishedIn[pkg] = true
+				}
+			}
 			for k := range keys {
 				if !known[k] {
 					needInline = true
